@@ -25,6 +25,7 @@ PLANS = {
             S("c05_conc", 700, 10000, label="aiomon"),
             S("c02_reuse", 500, 15000),   # one aio reused across operation kinds: nothing leaks from one use to the next
             S("c02_many", 300, 6000),
+            S("c07_collect", 600, 18000, label="collect"),  # aio reuse with absolute expirations (surveyor protocol)
             S("c10_device", 400, 12000, label="device"),  # nng_device_aio must complete after cancel/timeout also while traffic flows     # up to 260 deadlines in the same instant: none forgotten, none early
         ],
         "assumptions": ["internal aios are observed through link-time wrapping of nni_task_*/nni_aio_* (sim/aiomon.c); the monitor self-reports its event counts in stats"],
@@ -136,6 +137,7 @@ PLANS = {
             S("c09_conc", 600, 18000),
             S("c09_flood", 300, 9000),
             S("c09_nbsend", 40, 1200),
+            S("c09_reflect", 600, 18000),
         ],
         "assumptions": ["paced scenarios rely on sim_quiesce to make 'arrival' a definite point and on harness-driven "
                         "pipe arrivals/departures (dialers are retired after a pipe close so no redial timer fires mid-operation)",
@@ -173,6 +175,7 @@ PLANS = {
             S("c07_surv", 1200, 36000),
             S("c07_resp", 600, 18000),
             S("c07_conc", 500, 15000),
+            S("c07_collect", 1200, 36000),  # one aio, timeout set once, reused for every receive of every survey (scenarios/c07c_collect.cc)
             S("c07_bp", 600, 18000),       # respondent contexts answering behind a busy connection (scenarios/c07b_backpressure.cc)
         ],
         "assumptions": ["sequential scenarios rely on sim_quiesce (horizon 3 ms > largest configured segment latency) to make "
@@ -192,6 +195,7 @@ PLANS = {
             S("c13_chain", 1000, 30000),
             S("c13_raw", 800, 24000),
             S("c13_loop", 600, 18000),
+            S("c08_hops", 500, 15000, label="pair1 hop", bp=1),  # PAIR1 hop count on every path to the wire (the loop clause rests on it)
         ],
         "assumptions": [
             "hop-count convention pinned by the existing suite (test_xrep_ttl_drop): a request that crossed j "
